@@ -1,5 +1,6 @@
 """group T12Ops: the Type 1 / Type 2 Tag command layer and memory readers of nfc/tag/tt2.py, tt1.py beyond the command /
-response slices of group TagCmd -> Model/SectC03.lean (`sectorSelect`, `write`, `readFrom`, `writeUnits`, `getItem`),
+response slices of group TagCmd -> Model/SectC03.lean (cited in doc comments only: the theorem `sector_select_model` against `SectC03.sectorSelect` is DROPPED
+while that model moves to an optional believed sector - the bridge module does not import SectC03 any more),
 Model/AdvT12.lean (`fits`), Model/Tlv.lean (`phase1`), Model/FnTagCmdRef.lean, Model/FnT12OpsRef.lean (new: reference
 `sectorSelect` with the fact "believed sector = sector of the tag after every return or raise", `writeStep`)
 (C01, C02, C03, C08, C16)
@@ -7,7 +8,8 @@ Model/AdvT12.lean (`fits`), Model/Tlv.lean (`phase1`), Model/FnTagCmdRef.lean, M
 What is cut (also in the `note` of each spec):
 * `Type2Tag.sector_select` holds `try: .. except .. as error: if ..: raise  else: ..` (conditional bare re-raise + else:
   refused by the translator).  It is translated in slices addressed by their position in the statement tree (guard,
-  packet 1 + transceive, test inside the handler, the two raise branches, the statements BEHIND the `if` that assign
+  packet 1 + transceive, test inside the handler, the assignment `_current_sector = None` in front of the bare `raise` of the
+  handler (fixes/C16/0007), the two raise branches, the statements BEHIND the `if` that assign
   `_current_sector`, the return); `Lemmas/FnBridgeT12Ops.lean: genSectorSelect` nests them as the source does.  The
   `transceive` of packet 2 (keyword arguments, float timeout) is a parameter of the glue (its outcome).
 * `Type2Tag.write`, the Type 1 command methods: WHOLE bodies, `self.transceive` is a function parameter.
@@ -31,6 +33,7 @@ ORDER = 64
 T1, T2 = "tag/tt1.py", "tag/tt2.py"
 _UID = [("self.uid", "uid", BYTES)]
 _CUR = [("self._current_sector", "cur", INT)]
+_CURO = [("self._current_sector", "cur", OPT(INT))]
 _TX = {"self.transceive": ("tx", [BYTES], BYTES, True)}
 SS = "Type2Tag.sector_select"
 IFB = [(0, "body")]
@@ -39,11 +42,16 @@ _N = [("len(self)", "n", INT)]
 
 SPECS = [
     Spec(GROUP, "t2o_ss_guard", T2, SS, [("sector", INT)], binds=_CUR, whole=True, expr="sector != self._current_sector",
-         note="cut: the test that decides whether anything is sent"),
+         note="cut: the test that decides whether anything is sent, for an int `_current_sector` (int compared with an optional is refused; "
+              "for `None` the test is true: `genSectorSelect`)"),
     Spec(GROUP, "t2o_ss_send1", T2, SS, [], opaque=_TX, path=IFB, stmts=[1, 3], result=["rsp"],
          note="cut: statements 1 and 3 of the `if` body: packet 1 and its `transceive` (a function parameter)"),
     Spec(GROUP, "t2o_ss_p2_passive", T2, SS, [], binds=[("int(error)", "code", INT)], whole=True, expr="int(error) != TIMEOUT_ERROR",
          note="cut: the test inside `except Type2TagCommandError as error:` (true: the error is re-raised); `int(error)` is a parameter"),
+    Spec(GROUP, "t2o_ss_p2_forget", T2, SS, [], path=IFB + [(4, "body"), (0, ("handlers", 0)), (0, "body")], stmts=[0],
+         stores=["self._current_sector"], result=["self._current_sector"], ret=OPT(INT),
+         note="cut: statement 0 of the `if` inside `except Type2TagCommandError as error:` (in front of the bare `raise`, which is not "
+              "translatable): after a non-timeout error of packet 2 the current sector is unknown (fixes/C16/0007)"),
     Spec(GROUP, "t2o_ss_no_sector", T2, SS, [("sector", INT)], path=IFB + [(4, "body"), (0, "orelse")],
          note="cut: the `else:` block of the try statement (packet 2 was answered)"),
     Spec(GROUP, "t2o_ss_unsupported", T2, SS, [], path=IFB + [(4, "orelse")],
@@ -51,8 +59,8 @@ SPECS = [
     Spec(GROUP, "t2o_ss_commit", T2, SS, [("sector", INT)], path=IFB, stmts=[5, 6], stores=["self._current_sector"],
          result=["self._current_sector"],
          note="cut: statements 5, 6 of the `if` body - BEHIND the ACK `if` / try statement: the only assignment of `_current_sector`"),
-    Spec(GROUP, "t2o_ss_ret", T2, SS, [], binds=_CUR, stmts=[1],
-         note="cut: the `return` statement"),
+    Spec(GROUP, "t2o_ss_ret", T2, SS, [], binds=_CURO, stmts=[1],
+         note="cut: the `return` statement; `_current_sector` is an int or None"),
     Spec(GROUP, "t2o_write", T2, "Type2Tag.write", [("page", INT), ("data", BYTES)], opaque=_TX,
          note="whole method; `self.transceive` is a function parameter"),
     Spec(GROUP, "t2o_read_nak_reset", T2, "Type2Tag.read", [], path=[(2, "body")], stmts=[3], stores=["self._current_sector"],
@@ -133,7 +141,7 @@ BRIDGE = {
     "theorems": [P + t for t in (
         "t2o_ss_guard_bridge", "t2o_ss_send1_bridge", "t2o_ss_p2_passive_bridge", "t2o_ss_no_sector_bridge",
         "t2o_ss_unsupported_bridge", "t2o_ss_commit_bridge", "t2o_ss_ret_bridge", "sector_select_bridge",
-        "gen_sector_belief", "sector_select_model", "t2o_write_bridge", "t2o_read_nak_exc_bridge",
+        "gen_sector_belief", "t2o_ss_p2_forget_bridge", "gen_p2_garbled_forgets", "select_send_bridge", "t2o_write_bridge", "t2o_read_nak_exc_bridge",
         "t2o_read_nak_reset_bridge", "read_nak_bridge", "gen_reactivation_resets_belief", "t2o_fits_bridge",
         "t2o_fits_none", "t2o_room_bridge", "t2o_fits_cond_bridge", "t2o_phase1_bridge", "t1o_phase1_bridge",
         "t2o_mr_get_cond_bridge", "t2o_mr_get_stop_bridge", "t2o_mr_read_step_bridge", "t2o_mr_write_data_bridge",
@@ -141,7 +149,7 @@ BRIDGE = {
         "t1o_read_id_bridge", "t1o_read_all_bridge", "t1o_read_byte_bridge", "t1o_read_block_bridge",
         "t1o_read_segment_bridge", "t1o_write_byte_bridge", "t1o_write_block_bridge", "t1o_mr_write_block_step_bridge",
         "t1o_mr_write_byte_step_bridge")] + [R + t for t in (
-            "sectorSelect_belief", "sectorSelect_ok", "sectorSelect_p1_timeout", "sectorSelect_p2_error", "reactivation_resets_belief", "readNak_raises", "readNak_then_select",
+            "sectorSelect_belief", "sectorSelect_ok", "sectorSelect_p1_timeout", "sectorSelect_p2_garbled", "sectorSelect_unknown_sends", "reactivation_resets_belief", "readNak_raises", "readNak_then_select",
             "index_page_sector", "writeStep_failed_marked", "writeStep_ok_released", "lockBytes_covers")],
     "properties": ["C01", "C02", "C03", "C08", "C16"],
 }
@@ -163,9 +171,11 @@ def inputs(rng, sp):
         out += [([], [v]) for v in (-2, -1, 0, 1, 2, 3)]
     if n in ("t2o_ss_no_sector", "t2o_ss_commit"):
         out += [([v], []) for v in (-1, 0, 1, 2, 255, 256)]
-    if n in ("t2o_ss_ret", "t2o_mr_sync_stop"):
+    if n == "t2o_mr_sync_stop":
         out += [([], [v]) for v in (0, 1, 2, 15, 16, 255, 1024)]
-    if n in ("t2o_ss_send1", "t2o_ss_unsupported", "t1o_read_id", "t2o_read_nak_reset"):
+    if n == "t2o_ss_ret":
+        out += [([], [v]) for v in (None, 0, 1, 2, 15, 255)]
+    if n in ("t2o_ss_send1", "t2o_ss_unsupported", "t1o_read_id", "t2o_read_nak_reset", "t2o_ss_p2_forget"):
         out += [([], [])]
     if n == "t2o_write":
         out += [([rng.choice([0, 3, 4, 255, 256, 257, 1023, -1]), _b(rng, rng.choice([4, 4, 4, 3, 5, 0, 16]))], [])
@@ -226,12 +236,15 @@ def inputs(rng, sp):
     return out
 
 
-_H0 = "                    if int(error) != TIMEOUT_ERROR:  # passive ack\n                        raise"
+_H0 = ("                    if int(error) != TIMEOUT_ERROR:  # passive ack\n"
+       "                        # the tag may or may not have switched the sector\n"
+       "                        self._current_sector = None\n                        raise")
+_H1 = "                    if int(error) != TIMEOUT_ERROR:  # passive ack\n                        raise"
 
 
 def _seed_c03_r5m1(seg):
-    """seeded/C03-r5m1/patch.diff on the text of `Type2Tag.sector_select`"""
-    a = seg.replace(_H0, "                    self._current_sector = sector\n" + _H0, 1)
+    """seeded/C03-r5m1/patch.diff carried over to the text of `Type2Tag.sector_select` after fixes/C16/0007"""
+    a = seg.replace(_H0, "                    self._current_sector = sector\n" + _H1, 1)
     b = a.replace('            log.debug("sector {0} is now selected".format(sector))\n            self._current_sector = sector\n',
                   '            log.debug("sector {0} is now selected".format(sector))\n', 1)
     assert a != seg and b != a
@@ -241,8 +254,11 @@ def _seed_c03_r5m1(seg):
 _LEN0 = "            tag_memory[offset+1] = 0\n            tag_memory.synchronize()\n\n            # Leave room"
 MUTATIONS = [
     ("t2o_ss_commit", "seed C03-r5m1: `_current_sector` assigned in the handler in front of the re-raise, not at the end", _seed_c03_r5m1, None),
-    ("t2o_ss_commit", "GAP (not caught, handler bodies with a bare `raise` are not translatable): a SECOND assignment inside the "
-     "handler, the one at the end kept", _H0, "                    self._current_sector = sector\n" + _H0),
+    ("t2o_ss_p2_forget", "a second assignment inside the handler in front of the test (the former gap: now statement 0 of the handler "
+     "is no `if`)", _H0, "                    self._current_sector = sector\n" + _H0),
+    ("t2o_ss_p2_forget", "fixes/C16/0007 reverted: the old sector stays believed after a garbled acknowledge", _H0, _H1),
+    ("t2o_ss_p2_forget", "garbled acknowledge taken as a switch", "                        self._current_sector = None\n",
+     "                        self._current_sector = sector\n"),
     ("t2o_ss_commit", "sector recorded before packet 1 is sent", "            rsp = self.transceive(sector_select_1)\n",
      "            self._current_sector = sector\n            rsp = self.transceive(sector_select_1)\n"),
     ("t2o_ss_p2_passive", "negative error codes of packet 2 taken as passive ack", "if int(error) != TIMEOUT_ERROR:  # passive ack",
